@@ -18,8 +18,10 @@ pub enum Obs {
     Bytes(Vec<u8>),
     /// accept and close at once
     CloseEarly,
-    /// the listener is absent (connection refused)
+    /// the listener is absent (no socket file: connecting fails with "not found")
     Absent,
+    /// a socket file is there but nobody listens on it (a daemon that died): connecting is refused
+    Stale,
 }
 
 pub struct ObsServer {
@@ -28,6 +30,8 @@ pub struct ObsServer {
     pub served: Arc<Mutex<u64>>,
     stop: Arc<Mutex<bool>>,
     handle: Option<std::thread::JoinHandle<()>>,
+    stale_ack: Arc<Mutex<u64>>,
+    listening: Arc<Mutex<bool>>,
 }
 
 impl ObsServer {
@@ -37,6 +41,10 @@ impl ObsServer {
         let served = Arc::new(Mutex::new(0u64));
         let stop = Arc::new(Mutex::new(false));
         let (b2, s2, st2, p2) = (behaviour.clone(), served.clone(), stop.clone(), path.clone());
+        let stale_ack = Arc::new(Mutex::new(0u64));
+        let st_ack = stale_ack.clone();
+        let listening = Arc::new(Mutex::new(false));
+        let lis2 = listening.clone();
         let handle = std::thread::spawn(move || {
             let mut listener: Option<UnixListener> = None;
             loop {
@@ -45,10 +53,26 @@ impl ObsServer {
                 }
                 let want_absent = *b2.lock().unwrap() == Obs::Absent;
                 if want_absent {
-                    if listener.is_some() {
+                    if listener.is_some() || p2.exists() {
+                        // (the file may be a stale one left without a listener)
                         listener = None;
                         let _ = std::fs::remove_file(&p2);
                     }
+                    *lis2.lock().unwrap() = false;
+                    std::thread::sleep(Duration::from_millis(2));
+                    continue;
+                }
+                let want_stale = *b2.lock().unwrap() == Obs::Stale;
+                if want_stale {
+                    if listener.is_some() || !p2.exists() {
+                        // dropping a UnixListener leaves its socket file behind
+                        listener = None;
+                        if !p2.exists() {
+                            drop(UnixListener::bind(&p2).expect("harness: bind observation socket"));
+                        }
+                        *st_ack.lock().unwrap() += 1;
+                    }
+                    *lis2.lock().unwrap() = false;
                     std::thread::sleep(Duration::from_millis(2));
                     continue;
                 }
@@ -57,6 +81,7 @@ impl ObsServer {
                     let l = UnixListener::bind(&p2).expect("harness: bind observation socket");
                     l.set_nonblocking(true).unwrap();
                     listener = Some(l);
+                    *lis2.lock().unwrap() = true;
                 }
                 match listener.as_ref().unwrap().accept() {
                     Ok((mut s, _)) => {
@@ -72,18 +97,31 @@ impl ObsServer {
                 }
             }
         });
-        ObsServer { path, behaviour, served, stop, handle: Some(handle) }
+        ObsServer { path, behaviour, served, stop, handle: Some(handle), stale_ack, listening }
     }
     pub fn set(&self, o: Obs) {
         *self.behaviour.lock().unwrap() = o.clone();
         // give the server thread time to (un)bind
         if o == Obs::Absent {
+            let t = Instant::now();
             while self.path.exists() {
+                if t.elapsed() > Duration::from_secs(5) {
+                    eprintln!("machinery error: the observation socket harness did not remove its socket file");
+                    std::process::exit(2);
+                }
+                std::thread::sleep(Duration::from_millis(1));
+            }
+        } else if o == Obs::Stale {
+            // wait until the server thread has dropped its listener
+            let before = *self.stale_ack.lock().unwrap();
+            let t = Instant::now();
+            while *self.stale_ack.lock().unwrap() == before && t.elapsed() < Duration::from_millis(200) {
                 std::thread::sleep(Duration::from_millis(1));
             }
         } else {
+            // wait until the server thread listens (a stale socket file may still be lying there)
             let t = Instant::now();
-            while !self.path.exists() && t.elapsed() < Duration::from_secs(2) {
+            while !*self.listening.lock().unwrap() && t.elapsed() < Duration::from_secs(2) {
                 std::thread::sleep(Duration::from_millis(1));
             }
         }
